@@ -86,9 +86,24 @@ class FeatureOb(Obligation):
         try:
             ctx.runner_path('dev', self.feats); res['obligations'] += 1; res['discharged'] += 1
         except front.BuildError as ex:
+            # the runner (a binary that names the public API of exactly this subset) does not build: a violation only if the library itself
+            # does not build with the subset, or the runner fails again on its own (otherwise a tooling failure: inconclusive)
             res['obligations'] += 1
-            res['confirmed'].append(dict(input='--features ' + ','.join(self.feats), native='link failed: ' + str(ex)[-300:], what='public API of the subset does not link', profile='dev', obligation=self.name,
-                                         key='features|link|' + '+'.join(self.feats), request=None))
+            okb, msg = native.cargo_build_subset(ctx.build, self.feats)
+            res['replayed'] += 1
+            if not okb:
+                res['confirmed'].append(dict(input='cargo build --no-default-features --features ' + ','.join(self.feats), native='BUILD-FAILED ' + msg[:300], what='feature subset does not compile', profile='dev',
+                                             obligation=self.name, key='features|build|' + '+'.join(self.feats), request=['BUILD', ','.join(self.feats)]))
+            else:
+                try:
+                    ctx.runner_path('dev', self.feats); res['discharged'] += 1
+                except front.BuildError as ex2:
+                    errs = [l for l in str(ex2).splitlines() if l.startswith('error')]
+                    if any('E0' in l for l in errs):      # a compiler error about the API (unresolved import, missing item), not an environment failure
+                        res['confirmed'].append(dict(input='--features ' + ','.join(self.feats), native='link failed: ' + '; '.join(errs[:3])[:300], what='public API of the subset is not what the features select', profile='dev', obligation=self.name,
+                                                     key='features|link|' + '+'.join(self.feats), request=None))
+                    else:
+                        res['inconclusive'].append('%s: the runner for this subset could not be built (tooling): %s' % (self.name, str(ex2)[-200:]))
         # every compiled body of this subset is the same code as a body of the same (path-trimmed) name in the default build
         fullfp = {}
         for n, fl in full.fns.items(): fullfp.setdefault(n, set()).add(body_fingerprint(fl[0]))
